@@ -324,3 +324,287 @@ package impl
 //@     invariant forall a int :: 0 <= a && a < len(result) ==> (exists k int :: 0 <= k && k < i && containsS(d, input[k]) && (result[a] == input[k] || (fromOk(input[k]) && result[a] == fromS(input[k]))))
 //@     invariant forall k int :: 0 <= k && k < i && containsS(d, input[k]) ==> (exists a int :: 0 <= a && a < len(result) && (result[a] == input[k] || result[a] == fromS(input[k]) || eqItem(result[a], input[k])))
 //@   assigns nothing
+//
+// ---- C07/C16 (thin contracts): an empty input yields empty, not an error and not a value;
+// a call whose argument count is within the registered bounds never fails with ErrWrongArity
+// because of that count
+//@ func ToBoolean(ctx, input, args) (res, err)
+//@   requires ctx != nil && validColl(input)
+//@   requires forall k int :: 0 <= k && k < len(args) ==> args[k] != nil
+//@   ensures len(input) == 0 && len(args) == 0 ==> err == nil && len(res) == 0
+//@   assigns nothing
+//
+//@ func ConvertsToBoolean(ctx, input, args) (res, err)
+//@   requires ctx != nil && validColl(input)
+//@   requires forall k int :: 0 <= k && k < len(args) ==> args[k] != nil
+//@   ensures len(input) == 0 && len(args) == 0 ==> err == nil && len(res) == 0
+//@   assigns nothing
+//
+//@ func ToInteger(ctx, input, args) (res, err)
+//@   requires ctx != nil && validColl(input)
+//@   requires forall k int :: 0 <= k && k < len(args) ==> args[k] != nil
+//@   ensures len(input) == 0 && len(args) == 0 ==> err == nil && len(res) == 0
+//@   assigns nothing
+//
+//@ func ConvertsToInteger(ctx, input, args) (res, err)
+//@   requires ctx != nil && validColl(input)
+//@   requires forall k int :: 0 <= k && k < len(args) ==> args[k] != nil
+//@   ensures len(input) == 0 && len(args) == 0 ==> err == nil && len(res) == 0
+//@   assigns nothing
+//
+//@ func ToDate(ctx, input, args) (res, err)
+//@   requires ctx != nil && validColl(input)
+//@   requires forall k int :: 0 <= k && k < len(args) ==> args[k] != nil
+//@   ensures len(input) == 0 && len(args) == 0 ==> err == nil && len(res) == 0
+//@   assigns nothing
+//
+//@ func ConvertsToDate(ctx, input, args) (res, err)
+//@   requires ctx != nil && validColl(input)
+//@   requires forall k int :: 0 <= k && k < len(args) ==> args[k] != nil
+//@   ensures len(input) == 0 && len(args) == 0 ==> err == nil && len(res) == 0
+//@   assigns nothing
+//
+//@ func ToDateTime(ctx, input, args) (res, err)
+//@   requires ctx != nil && validColl(input)
+//@   requires forall k int :: 0 <= k && k < len(args) ==> args[k] != nil
+//@   ensures len(input) == 0 && len(args) == 0 ==> err == nil && len(res) == 0
+//@   assigns nothing
+//
+//@ func ConvertsToDateTime(ctx, input, args) (res, err)
+//@   requires ctx != nil && validColl(input)
+//@   requires forall k int :: 0 <= k && k < len(args) ==> args[k] != nil
+//@   ensures len(input) == 0 && len(args) == 0 ==> err == nil && len(res) == 0
+//@   assigns nothing
+//
+//@ func ToDecimal(ctx, input, args) (res, err)
+//@   requires ctx != nil && validColl(input)
+//@   requires forall k int :: 0 <= k && k < len(args) ==> args[k] != nil
+//@   ensures len(input) == 0 && len(args) == 0 ==> err == nil && len(res) == 0
+//@   assigns nothing
+//
+//@ func ConvertsToDecimal(ctx, input, args) (res, err)
+//@   requires ctx != nil && validColl(input)
+//@   requires forall k int :: 0 <= k && k < len(args) ==> args[k] != nil
+//@   ensures len(input) == 0 && len(args) == 0 ==> err == nil && len(res) == 0
+//@   assigns nothing
+//
+//@ func ToString(ctx, input, args) (res, err)
+//@   requires ctx != nil && validColl(input)
+//@   requires forall k int :: 0 <= k && k < len(args) ==> args[k] != nil
+//@   ensures len(input) == 0 && len(args) == 0 ==> err == nil && len(res) == 0
+//@   assigns nothing
+//
+//@ func ConvertsToString(ctx, input, args) (res, err)
+//@   requires ctx != nil && validColl(input)
+//@   requires forall k int :: 0 <= k && k < len(args) ==> args[k] != nil
+//@   ensures len(input) == 0 && len(args) == 0 ==> err == nil && len(res) == 0
+//@   assigns nothing
+//
+//@ func ToTime(ctx, input, args) (res, err)
+//@   requires ctx != nil && validColl(input)
+//@   requires forall k int :: 0 <= k && k < len(args) ==> args[k] != nil
+//@   ensures len(input) == 0 && len(args) == 0 ==> err == nil && len(res) == 0
+//@   assigns nothing
+//
+//@ func ConvertsToTime(ctx, input, args) (res, err)
+//@   requires ctx != nil && validColl(input)
+//@   requires forall k int :: 0 <= k && k < len(args) ==> args[k] != nil
+//@   ensures len(input) == 0 && len(args) == 0 ==> err == nil && len(res) == 0
+//@   assigns nothing
+//
+//@ func Upper(ctx, input, args) (res, err)
+//@   requires ctx != nil && validColl(input)
+//@   requires forall k int :: 0 <= k && k < len(args) ==> args[k] != nil
+//@   ensures len(input) == 0 && len(args) == 0 ==> err == nil && len(res) == 0
+//@   assigns nothing
+//
+//@ func Lower(ctx, input, args) (res, err)
+//@   requires ctx != nil && validColl(input)
+//@   requires forall k int :: 0 <= k && k < len(args) ==> args[k] != nil
+//@   ensures len(input) == 0 && len(args) == 0 ==> err == nil && len(res) == 0
+//@   assigns nothing
+//
+//@ func Exp(ctx, input, args) (res, err)
+//@   requires ctx != nil && validColl(input)
+//@   requires forall k int :: 0 <= k && k < len(args) ==> args[k] != nil
+//@   ensures len(input) == 0 && len(args) == 0 ==> err == nil && len(res) == 0
+//@   assigns nothing
+//
+//@ func Ln(ctx, input, args) (res, err)
+//@   requires ctx != nil && validColl(input)
+//@   requires forall k int :: 0 <= k && k < len(args) ==> args[k] != nil
+//@   ensures len(input) == 0 && len(args) == 0 ==> err == nil && len(res) == 0
+//@   assigns nothing
+//
+//@ func Sqrt(ctx, input, args) (res, err)
+//@   requires ctx != nil && validColl(input)
+//@   requires forall k int :: 0 <= k && k < len(args) ==> args[k] != nil
+//@   ensures len(input) == 0 && len(args) == 0 ==> err == nil && len(res) == 0
+//@   assigns nothing
+//
+//@ func Children(ctx, input, args) (res, err)
+//@   requires ctx != nil && validColl(input)
+//@   requires forall k int :: 0 <= k && k < len(args) ==> args[k] != nil
+//@   ensures len(input) == 0 && len(args) == 0 ==> err == nil && len(res) == 0
+//@   assigns nothing
+//
+//@ func Descendants(ctx, input, args) (res, err)
+//@   requires ctx != nil && validColl(input)
+//@   requires forall k int :: 0 <= k && k < len(args) ==> args[k] != nil
+//@   ensures len(input) == 0 && len(args) == 0 ==> err == nil && len(res) == 0
+//@   assigns nothing
+//
+//@ func ToQuantity(ctx, input, args) (res, err)
+//@   requires ctx != nil && validColl(input)
+//@   requires forall k int :: 0 <= k && k < len(args) ==> args[k] != nil
+//@   ensures len(input) == 0 && 0 <= len(args) && len(args) <= 1 ==> err == nil && len(res) == 0
+//@   assigns nothing
+//
+//@ func ConvertsToQuantity(ctx, input, args) (res, err)
+//@   requires ctx != nil && validColl(input)
+//@   requires forall k int :: 0 <= k && k < len(args) ==> args[k] != nil
+//@   ensures len(input) == 0 && 0 <= len(args) && len(args) <= 1 ==> err == nil && len(res) == 0
+//@   assigns nothing
+//
+//@ func Join(ctx, input, args) (res, err)
+//@   requires ctx != nil && validColl(input)
+//@   requires forall k int :: 0 <= k && k < len(args) ==> args[k] != nil
+//@   ensures len(input) == 0 && 0 <= len(args) && len(args) <= 1 ==> err == nil && len(res) == 0
+//@   assigns nothing
+//
+//@ func Matches(ctx, input, args) (res, err)
+//@   requires ctx != nil && validColl(input)
+//@   requires forall k int :: 0 <= k && k < len(args) ==> args[k] != nil
+//@   ensures len(input) == 0 && len(args) == 1 ==> err == nil && len(res) == 0
+//@   assigns nothing
+//
+//@ func Log(ctx, input, args) (res, err)
+//@   requires ctx != nil && validColl(input)
+//@   requires forall k int :: 0 <= k && k < len(args) ==> args[k] != nil
+//@   ensures len(input) == 0 && len(args) == 1 ==> err == nil && len(res) == 0
+//@   assigns nothing
+//
+//@ func Extension(ctx, input, args) (res, err)
+//@   requires ctx != nil && validColl(input)
+//@   requires forall k int :: 0 <= k && k < len(args) ==> args[k] != nil
+//@   ensures len(input) == 0 && len(args) == 1 ==> err == nil && len(res) == 0
+//@   assigns nothing
+//
+//@ func ReplaceMatches(ctx, input, args) (res, err)
+//@   requires ctx != nil && validColl(input)
+//@   requires forall k int :: 0 <= k && k < len(args) ==> args[k] != nil
+//@   ensures len(input) == 0 && len(args) == 2 ==> err == nil && len(res) == 0
+//@   assigns nothing
+//
+//
+// ---- C14: string functions on characters ----------------------------------------------------
+// (s is the receiver as a string: the single input item converted by system.From)
+//@ func Length(ctx, input, args) (res, err)
+//@   requires ctx != nil && validColl(input)
+//@   requires fromOk(input[0]) && isStringV(fromS(input[0])) ==> len(unbox(fromS(input[0]), system.String)) <= 2147483647
+//@   let s = unbox(fromS(input[0]), system.String)
+//@   let ok = len(input) == 1 && fromOk(input[0]) && isStringV(fromS(input[0]))
+//@   ensures len(input) == 0 && len(args) == 0 ==> err == nil && len(res) == 0
+//@   ensures ok && len(args) == 0 ==> err == nil && len(res) == 1 && res[0] == mkInt(rlenS(s))
+//@   ensures len(input) == 1 && len(args) == 0 && !ok ==> err != nil
+//@   assigns nothing
+//
+//@ func ToChars(ctx, input, args) (res, err)
+//@   requires ctx != nil && validColl(input)
+//@   requires fromOk(input[0]) && isStringV(fromS(input[0])) ==> len(unbox(fromS(input[0]), system.String)) <= 2147483647
+//@   let s = unbox(fromS(input[0]), system.String)
+//@   let ok = len(input) == 1 && fromOk(input[0]) && isStringV(fromS(input[0]))
+//@   ensures len(input) == 0 && len(args) == 0 ==> err == nil && len(res) == 0
+//@   ensures ok && len(args) == 0 ==> err == nil && len(res) == rlenS(s)
+//@   ensures ok && len(args) == 0 ==> forall k int :: 0 <= k && k < len(res) ==> res[k] == box(system.String(rsubS(s, k, k + 1)))
+//@   loop 1 (i):
+//@     invariant len(result) == i && own(result)
+//@     invariant forall k int :: 0 <= k && k < i ==> result[k] == box(system.String(rsubS(s, k, k + 1)))
+//@   assigns nothing
+//
+// substring(start [, length]): the characters from start (at most length of them); empty when
+// start lies outside [0, length of the string)
+//@ func Substring(ctx, input, args) (res, err)
+//@   requires ctx != nil && validColl(input)
+//@   requires fromOk(input[0]) && isStringV(fromS(input[0])) ==> len(unbox(fromS(input[0]), system.String)) <= 2147483647
+//@   requires forall k int :: 0 <= k && k < len(args) ==> args[k] != nil
+//@   let K = ctx.ExternalConstants
+//@   let N = ctx.Now
+//@   let s = unbox(fromS(input[0]), system.String)
+//@   let ok = len(input) == 1 && fromOk(input[0]) && isStringV(fromS(input[0]))
+//@   let sv = evalRes(args[0], K, N, input)
+//@   let nv = evalRes(args[1], K, N, input)
+//@   let startOk = evalErr(args[0], K, N, input) == nil && len(sv) == 1 && isInteger(sv[0])
+//@   let lenOk = evalErr(args[1], K, N, input) == nil && len(nv) == 1 && isInteger(nv[0])
+//@   let start = intOf(sv[0])
+//@   ensures len(input) == 0 && 1 <= len(args) && len(args) <= 2 ==> err == nil && len(res) == 0
+//@   ensures ok && len(args) == 1 && startOk && (start < 0 || start >= rlenS(s)) ==> err == nil && len(res) == 0
+//@   ensures ok && len(args) == 1 && startOk && 0 <= start && start < rlenS(s) ==> err == nil && len(res) == 1 && res[0] == box(system.String(rsubS(s, start, rlenS(s))))
+//@   ensures ok && len(args) == 2 && startOk && (start < 0 || start >= rlenS(s)) ==> len(res) == 0
+//@   ensures ok && len(args) == 2 && startOk && lenOk && 0 <= start && start < rlenS(s) ==> err == nil && len(res) == 1 && res[0] == box(system.String(rsubS(s, start, subEnd(s, start, intOf(nv[0])))))
+//@   assigns nothing
+//
+// indexOf(t): the character index of the first occurrence, -1 if none
+//@ func IndexOf(ctx, input, args) (res, err)
+//@   requires ctx != nil && validColl(input)
+//@   requires fromOk(input[0]) && isStringV(fromS(input[0])) ==> len(unbox(fromS(input[0]), system.String)) <= 2147483647
+//@   requires forall k int :: 0 <= k && k < len(args) ==> args[k] != nil
+//@   let K = ctx.ExternalConstants
+//@   let N = ctx.Now
+//@   let s = unbox(fromS(input[0]), system.String)
+//@   let ok = len(input) == 1 && fromOk(input[0]) && isStringV(fromS(input[0]))
+//@   let tv = evalRes(args[0], K, N, input)
+//@   let t = unbox(fromS(tv[0]), system.String)
+//@   let tOk = evalErr(args[0], K, N, input) == nil && len(tv) == 1 && fromOk(tv[0]) && isStringV(fromS(tv[0]))
+//@   ensures len(input) == 0 && len(args) == 1 ==> err == nil && len(res) == 0
+//@   ensures ok && len(args) == 1 && evalErr(args[0], K, N, input) == nil && len(tv) == 0 ==> err == nil && len(res) == 0
+//@   ensures ok && len(args) == 1 && tOk ==> err == nil && len(res) == 1 && res[0] == mkInt(rindexS(s, t))
+//@   assigns nothing
+//
+//@ func StartsWith(ctx, input, args) (res, err)
+//@   requires ctx != nil && validColl(input)
+//@   requires forall k int :: 0 <= k && k < len(args) ==> args[k] != nil
+//@   let K = ctx.ExternalConstants
+//@   let N = ctx.Now
+//@   let s = unbox(fromS(input[0]), system.String)
+//@   let ok = len(input) == 1 && fromOk(input[0]) && isStringV(fromS(input[0]))
+//@   let tv = evalRes(args[0], K, N, input)
+//@   let t = unbox(fromS(tv[0]), system.String)
+//@   let tOk = evalErr(args[0], K, N, input) == nil && len(tv) == 1 && fromOk(tv[0]) && isStringV(fromS(tv[0]))
+//@   ensures len(input) == 0 && len(args) == 1 ==> err == nil && len(res) == 0
+//@   ensures ok && len(args) == 1 && tOk ==> err == nil && collTV(res) == ite(strprefix(t, s), TV_T, TV_F)
+//@   assigns nothing
+//
+//@ func EndsWith(ctx, input, args) (res, err)
+//@   requires ctx != nil && validColl(input)
+//@   requires forall k int :: 0 <= k && k < len(args) ==> args[k] != nil
+//@   let K = ctx.ExternalConstants
+//@   let N = ctx.Now
+//@   let s = unbox(fromS(input[0]), system.String)
+//@   let ok = len(input) == 1 && fromOk(input[0]) && isStringV(fromS(input[0]))
+//@   let tv = evalRes(args[0], K, N, input)
+//@   let t = unbox(fromS(tv[0]), system.String)
+//@   let tOk = evalErr(args[0], K, N, input) == nil && len(tv) == 1 && fromOk(tv[0]) && isStringV(fromS(tv[0]))
+//@   ensures len(input) == 0 && len(args) == 1 ==> err == nil && len(res) == 0
+//@   ensures ok && len(args) == 1 && tOk ==> err == nil && collTV(res) == ite(strsuffix(t, s), TV_T, TV_F)
+//@   assigns nothing
+//
+//@ func Contains(ctx, input, args) (res, err)
+//@   requires ctx != nil && validColl(input)
+//@   requires forall k int :: 0 <= k && k < len(args) ==> args[k] != nil
+//@   let K = ctx.ExternalConstants
+//@   let N = ctx.Now
+//@   let s = unbox(fromS(input[0]), system.String)
+//@   let ok = len(input) == 1 && fromOk(input[0]) && isStringV(fromS(input[0]))
+//@   let tv = evalRes(args[0], K, N, input)
+//@   let t = unbox(fromS(tv[0]), system.String)
+//@   let tOk = evalErr(args[0], K, N, input) == nil && len(tv) == 1 && fromOk(tv[0]) && isStringV(fromS(tv[0]))
+//@   ensures len(input) == 0 && len(args) == 1 ==> err == nil && len(res) == 0
+//@   ensures ok && len(args) == 1 && tOk ==> err == nil && collTV(res) == ite(strcontains(s, t), TV_T, TV_F)
+//@   assigns nothing
+//
+//@ func Replace(ctx, input, args) (res, err)
+//@   requires ctx != nil && validColl(input)
+//@   requires forall k int :: 0 <= k && k < len(args) ==> args[k] != nil
+//@   ensures len(input) == 0 && len(args) == 2 ==> err == nil && len(res) == 0
+//@   assigns nothing
